@@ -681,6 +681,30 @@ SCALE0 = 100000       # end-to-end tree numbers from here on are the payloads AT
 N_TPL = len(scale.TEMPLATES)
 
 
+REQUIRED_SCALE = ["scale: piece length %d MiB" % n for n in (2, 4, 8, 16, 32)] + \
+                 ["scale: hashers on one file, piece length %d MiB" % n for n in (2, 4, 8, 16, 32)] + \
+                 ["scale: file size a multiple of 1 MiB but not of the piece length", "scale: piece count not a power of two",
+                  "scale: block count of the last piece not a power of two", "scale: file shorter than one piece",
+                  "scale: single file", "scale: directory"] + \
+                 ["scale: last piece of a file longer than %d MiB" % n for n in (1, 4, 8)] + \
+                 ["scale: more than %d MiB of padding after a file" % n for n in (1, 4, 8, 16)] + \
+                 [f"scale: route {r} progress {p}" for r in ("library", "command line") for p in (0, 1, 2)] + \
+                 ["scale: --piece-length given as the exponent", "scale: --piece-length given as bytes"]
+RULE_SCALE = (
+    "  AT SCALE (harness/scale.py; judged by the same reference / mutual comparison as the small cases, never sent to the extracted "
+    "models): (a) every v2-capable hasher on one file with piece lengths 2 .. 32 MiB -- a size that is a multiple of 1 MiB but not "
+    "of the piece length, almost a whole piece of padding, a last piece just above / exactly at 4 MiB, more than 8 MiB in the last "
+    "piece, a file shorter than one 16 MiB piece, and 65 MiB with 32 MiB pieces (2048 blocks per piece, 3 pieces, 1984 blocks of "
+    "padding); the thorough tier adds piece length 1 MiB, 22 more aimed sizes and 24 random sizes k MiB + r; (b) end to end: the aimed "
+    "templates of scale.py (piece lengths 2 .. 16 MiB, files of 1 .. 26 MiB around read windows of 1 / 4 / 8 MiB, more than 1 / 4 / "
+    "8 MiB of padding after a file, a short file after a piece with data in its later windows, sizes one byte either side of a "
+    "piece) and a 65 MiB file in a directory with 32 MiB pieces (31 MiB of padding), in the thorough tier also that file alone and "
+    "random shapes (40 trees): EVERY class-based creator of the property runs on every such tree plain, with align=True and with "
+    "assemble() called again, the progress mode (0 none / 1 a bar per file / 2 one bar) rotating over these creates, and EVERY "
+    "command-line variant of the property runs on it with --prog 0|1|2 in turn and --piece-length spelled as the exponent (21..25) "
+    "or in bytes in turn; a third of the random shapes also with the payload changing before the second assemble().")
+
+
 def scale_indices(tier):
     """numbers (above SCALE0) of the trees at scale of a run: every aimed template and the 32 MiB one in the quick tier; in the
        thorough tier also the 32 MiB one as a single file and random shapes of the same kind"""
@@ -1058,8 +1082,16 @@ def check_c03(meta, case):
         problems.append("not a hybrid metafile (meta version 2 + file tree + pieces expected)")
         return problems
     leaves = [(c, n) for c, n, _ in _leaves_strict(info, problems)]
+    # files are read once per built case and the reference hashing of one listed stream is computed once (every metafile of a case
+    # is judged after the last creator ran, against the same files on disk; most of them list the same stream)
+    ref = case.setdefault("_ref_v1", {})
+
+    def read(p):
+        if ("file", p) not in ref:
+            ref[("file", p)] = oracle.read(p)
+        return ref[("file", p)]
     if case["single"]:
-        data = oracle.read(root)
+        data = read(root)
         if b"files" in info:
             problems.append("single-file hybrid has a files list")
         if info.get(b"length") != len(data):
@@ -1079,7 +1111,7 @@ def check_c03(meta, case):
     if not isinstance(files, list):
         problems.append("directory hybrid has no files list")
         return problems
-    stream, off, payload = [], 0, []
+    stream, off, payload, listed = [], 0, [], []
     for j, f in enumerate(files):
         ln = f.get(b"length")
         if not isinstance(ln, int) or ln < 0:
@@ -1090,26 +1122,37 @@ def check_c03(meta, case):
                 problems.append(f"padding entry {j} has attr {f[b'attr']!r}")
             if f.get(b"path") != [b".pad", str(ln).encode()]:
                 problems.append(f"padding entry {j} has path {f.get(b'path')} (length {ln})")
-            stream.append(bytes(ln))
+            stream.append(ln)
+            listed.append(("zeros", ln))
         else:
             comps = tuple(c.decode("utf-8", "surrogateescape") for c in f.get(b"path", []))
             if off % pl:
                 problems.append(f"file {'/'.join(comps)} starts at offset {off} of the v1 stream, not on a piece boundary")
             p = os.path.join(root, *comps)
-            data = oracle.read(p) if comps and os.path.isfile(p) else b""
+            data = read(p) if comps and os.path.isfile(p) else b""
             if len(data) != ln:
                 problems.append(f"file {'/'.join(comps)} listed with length {ln}, on disk {len(data)}")
-            stream.append(data[:ln] + bytes(max(0, ln - len(data))))
+            stream.append((data, ln))
+            listed.append((comps, ln))
             payload.append((comps, ln))
         off += ln
     if payload != leaves:
         problems.append(f"non-padding entries of info.files differ from the file-tree leaves (order or lengths): "
                         f"files {payload[:5]} tree {leaves[:5]}")
-    stream = b"".join(stream)
-    exp = b"".join(oracle.v1_pieces(stream, pl))
+    key = ("stream", tuple(listed))
+    if key not in ref:
+        # the listed stream: the bytes of every listed file (cut / zero-extended to its listed length), padding entries as zeros
+        def part(x):
+            if isinstance(x, int):
+                return bytes(x)
+            data, ln = x
+            return data if len(data) == ln else data[:ln] + bytes(max(0, ln - len(data)))
+        stream = b"".join(part(x) for x in stream)
+        ref[key] = (b"".join(oracle.v1_pieces(stream, pl)), len(stream))
+    exp, total = ref[key]
     if info[b"pieces"] != exp:
         problems.append(f"pieces ({len(info[b'pieces']) // 20} hashes) are not the SHA-1 piece hashes of the listed stream "
-                        f"({len(exp) // 20} pieces, {len(stream)} bytes)")
+                        f"({len(exp) // 20} pieces, {total} bytes)")
     return problems
 
 
